@@ -295,3 +295,116 @@ Theorem C19_no_mutable_package_state :
   StateInventory.rg_mutated g = false /\ StateInventory.rg_escapes g = false.
 Proof. apply StateInventory.pkg_state_ok_spec. vm_compute. reflexivity. Qed.
 Print Assumptions C19_no_mutable_package_state.
+
+(** ** The PUBLIC debugger object, debug.NewDebugger (bscript/interpreter/debug/debugger.go) - was NOT MODELLED.
+    model/DebugFanout.v: a record of 14 handler lists (the fields of the Go struct, in order), [attach] = the 14 Attach
+    methods ([append] at the end of the list of that event), [dispatch] = the 14 methods the engine calls (one loop
+    over the list of that event).  A handler is a function of the State it is shown (and the data, for the stack
+    callbacks) and of the user state the closures share; it RETURNS what it leaves in the State object / the bytes of
+    the data slice, because the Go loop hands the SAME [*State] pointer and the same [data] slice to every handler of
+    one call: a handler that writes there is seen by the next handler of the same event (not by later events: every
+    call of the engine builds a new State; not by the engine).  The options ([WithRewind]) do nothing.
+    proofs/DebugFanoutProofs.v. *)
+From GoBT Require Import model.DebugFanout proofs.DebugFanoutProofs.
+
+(** (a) the object, whatever was attached to it, is a [debugger U]: the run with it attached returns verdict and
+    snapshots of the plain engine ([C19_any_debugger_same_run]), and the user state ends where the method loops, run
+    over the engine's callback trace, leave it ([C19_any_debugger_is_a_replay]) *)
+Theorem C19_fanout_is_a_debugger : forall (U : Type) (d : fanout U) (u0 : U) so i,
+  engine_execute_with (fan_debugger d) u0 so i =
+  (engine_execute so i, fan_replay d (lifecycle_calls (engine_trace so i)) u0).
+Proof. exact fanout_is_a_debugger. Qed.
+Print Assumptions C19_fanout_is_a_debugger.
+Theorem C19_fanout_never_changes_the_run : forall (U : Type) (rs : list (reg U)) rewind (u0 : U) so i,
+  fst (engine_execute_with (fan_debugger (attach_all rs (new_debugger rewind))) u0 so i) = engine_execute so i.
+Proof. exact fanout_never_changes_the_run. Qed.
+Print Assumptions C19_fanout_never_changes_the_run.
+
+(** (b) order.  One call of the method of event [e]: exactly the functions passed to the Attach method of [e], in the
+    order of the Attach calls ... *)
+Theorem C19_fanout_dispatch_registration_order : forall (U : Type) (rs : list (reg U)) rewind e sn data (u : U),
+  dispatch e sn data (attach_all rs (new_debugger rewind)) u =
+  snd (run_handlers (map reg_stf (filter (fun r => fevent_eqb (reg_event r) e) rs)) sn data u).
+Proof. exact dispatch_registration_order. Qed.
+Print Assumptions C19_fanout_dispatch_registration_order.
+(** ... so with recording handlers (each writes its event and label) registered in the order [regs], the log of a run
+    is, callback by callback of the engine's trace, the labels registered for THAT callback in registration order,
+    each once ([expected_log]); handlers of other events are not run by that callback *)
+Theorem C19_fanout_order : forall (L : Type) (regs : list (fevent * L)) so i,
+  engine_execute_with (fan_debugger (recording_fanout regs)) [] so i =
+  (engine_execute so i, expected_log regs (map hook_of (map fst (engine_trace so i)))).
+Proof. exact fanout_order. Qed.
+Print Assumptions C19_fanout_order.
+(** for ANY sequence of calls of the 14 methods (stack callbacks included; this is what corr/C19.v evaluates on the
+    observed sequence, whose lifecycle part is checked to be the model's trace) *)
+Theorem C19_fanout_order_calls : forall (L : Type) (regs : list (fevent * L)) (tr : list fcall) u,
+  fan_replay (recording_fanout regs) tr u = u ++ expected_log regs (map fc_event tr).
+Proof. exact fanout_order_calls. Qed.
+Print Assumptions C19_fanout_order_calls.
+(** the part of the log written by the handlers of event [e]: their registration-order block, once per call of [e] *)
+Theorem C19_fanout_once_per_occurrence : forall (L : Type) (regs : list (fevent * L)) events e,
+  filter (fun el => fevent_eqb (fst el) e) (expected_log regs events) =
+  concat (repeat (map (fun l => (e, l)) (labels_for e regs)) (count_event e events)).
+Proof. exact expected_log_per_event. Qed.
+Print Assumptions C19_fanout_once_per_occurrence.
+
+(** (c) handlers do not influence each other - PROVIDED they only read what they are shown.  [rs]: handlers with a
+    state of their own (the j-th registered owns slot j of [nat -> H]).  With all of them attached to one object,
+    handler j ends where it ends when attached alone, which is where it gets when run on the calls of its own event
+    shown what the engine handed out. *)
+Theorem C19_fanout_compositional : forall (H : Type) (rs : list (reg H)) (u0 : nat -> H) so i j r,
+  Forall reg_read_only rs -> nth_error rs j = Some r ->
+  snd (engine_execute_with (fan_debugger (fanout_of rs)) u0 so i) j =
+  snd (engine_execute_with (fan_debugger (fanout_alone j r)) u0 so i) j /\
+  snd (engine_execute_with (fan_debugger (fanout_of rs)) u0 so i) j =
+  own_replay r (lifecycle_calls (engine_trace so i)) (u0 j).
+Proof. exact @fanout_compositional. Qed.
+Print Assumptions C19_fanout_compositional.
+Theorem C19_fanout_compositional_calls : forall (H : Type) (rs : list (reg H)) (tr : list fcall) (u0 : nat -> H) j r,
+  Forall reg_read_only rs -> nth_error rs j = Some r ->
+  fan_replay (fanout_of rs) tr u0 j = fan_replay (fanout_alone j r) tr u0 j /\
+  fan_replay (fanout_of rs) tr u0 j = own_replay r tr (u0 j).
+Proof. exact @fanout_compositional_calls. Qed.
+Print Assumptions C19_fanout_compositional_calls.
+(** WITHOUT the hypothesis the statement is false of the faithful model: the State object of one call is shared by the
+    handlers of that call.  OP_1 | OP_1 OP_EQUAL; an AfterStep handler that empties the data stack of the State it is
+    shown, registered before an AfterStep handler that only reads (writes down the depth of the data stack): the
+    reader ends with [0;0;0], alone it ends with [1;2;1].  Reproduced on /repo (debug.NewDebugger, two AttachAfterStep):
+    the second handler is shown the first one's scribbling.  The RUN is not affected (C19_fanout_never_changes_the_run):
+    what is broken is the isolation of one handler's snapshot from another handler, not from the execution. *)
+Theorem C19_fanout_compositional_refuted_with_a_writer :
+  exists (rs : list (reg (list nat))) j r so i,
+    nth_error rs j = Some r /\ reg_read_only r /\
+    snd (engine_execute_with (fan_debugger (fanout_of rs)) (fun _ => []) so i) j <>
+    snd (engine_execute_with (fan_debugger (fanout_alone j r)) (fun _ => []) so i) j.
+Proof. exact fanout_compositional_refuted_with_a_writer. Qed.
+Print Assumptions C19_fanout_compositional_refuted_with_a_writer.
+Example C19_fanout_writer_seen_by_next_handler :
+  snd (engine_execute_with (fan_debugger (fanout_of [wiper; depth_reader])) (fun _ => []) no_sigops eq_prog) 1 = [0; 0; 0]%nat /\
+  snd (engine_execute_with (fan_debugger (fanout_alone 1 depth_reader)) (fun _ => []) no_sigops eq_prog) 1 = [1; 2; 1]%nat /\
+  snd (engine_execute_with (fan_debugger (fanout_of [depth_reader; wiper])) (fun _ => []) no_sigops eq_prog) 0 = [1; 2; 1]%nat /\
+  fst (engine_execute_with (fan_debugger (fanout_of [wiper; depth_reader])) (fun _ => []) no_sigops eq_prog) =
+    engine_execute no_sigops eq_prog.
+Proof. exact writer_seen_by_next_handler. Qed.
+(** the options record is dropped *)
+Theorem C19_fanout_ignores_rewind : forall (U : Type) r r', @new_debugger U r = @new_debugger U r'.
+Proof. exact @new_debugger_ignores_rewind. Qed.
+
+(** (d) OP_2 | OP_3 OP_ADD with two handlers on AfterStep (the data stack flattened / its depth in unary) and one on
+    BeforeStackPush (the data about to be pushed), over the calls the engine makes (lifecycle part = the model's trace,
+    stack callbacks where model/DebugStack.v accepts them, States and data as the Go engine shows them) *)
+Example C19_fanout_example :
+  filter (fun c => is_lifecycle (fc_event c)) add_calls = lifecycle_calls (engine_trace no_sigops add_prog) /\
+  full_lifecycle_ok false [FL BE; FL BS; FL BO; FPush; FL AO; FL BC; FL AC; FL AS; FL BS; FL BO; FPush; FL AO; FL AS;
+            FL BS; FL BO; FPop; FPop; FPush; FL AO; FL BC; FL AC; FL AS; FL AE; FPop; FL EOK] = true /\
+  map fc_event add_calls =
+    expand [FL BE; FL BS; FL BO; FPush; FL AO; FL BC; FL AC; FL AS; FL BS; FL BO; FPush; FL AO; FL AS;
+            FL BS; FL BO; FPop; FPop; FPush; FL AO; FL BC; FL AC; FL AS; FL AE; FPop; FL EOK] /\
+  fan_replay (fanout_of add_handlers) add_calls (fun _ => []) 0 = [[x02]; [x02; x03]; [x05]] /\
+  fan_replay (fanout_of add_handlers) add_calls (fun _ => []) 1 = [[x02]; [x03]; [x05]] /\
+  fan_replay (fanout_of add_handlers) add_calls (fun _ => []) 2 = [[x01]; [x01; x01]; [x01]] /\
+  fst (fst (engine_execute_with (fan_debugger (fanout_of add_handlers)) (fun _ => []) no_sigops add_prog)) = VOk /\
+  fan_replay (recording_fanout [(HAfterStep, 1%nat); (HBeforeStackPush, 0%nat); (HAfterStep, 0%nat)]) add_calls [] =
+    [(HBeforeStackPush, 0%nat); (HAfterStep, 1%nat); (HAfterStep, 0%nat); (HBeforeStackPush, 0%nat); (HAfterStep, 1%nat);
+     (HAfterStep, 0%nat); (HBeforeStackPush, 0%nat); (HAfterStep, 1%nat); (HAfterStep, 0%nat)].
+Proof. vm_compute. repeat split; reflexivity. Qed.
